@@ -25,6 +25,14 @@ order of the system calls on the output file, and every byte of the two superblo
 
 Errors are sticky (`WState.err`): once a primitive or a modelled check fails the C code returns the error up
 to `main`, which issues no further output-file call; in the model `fWrite`/`fTrunc` become no-ops.
+
+Failing runs (`Fault`, `Run.fault`, `Run.inputError`): a run may be subjected to a failure at any step — the
+output call that would be the `k`-th fails (ENOSPC/EIO, or any other failure detected at that point: allocation,
+read error), the file cannot grow beyond `n` bytes, or the input turns out to be damaged/truncated while the data
+is being packed.  `stdio_write_at`/`stdio_truncate` then return `SQFS_ERROR_IO` without having changed the file,
+every caller returns the error (`if (ret) return ret;` … `goto out`), `main` calls `sqfs_writer_cleanup` with
+`EXIT_FAILURE`, which issues exactly one more call on the output path: `unlink` (`unlinkAtExit`).  In
+particular `sqfs_writer_finish` reaches the final `sqfs_super_write` only if every earlier step succeeded.
 -/
 import Sqfs.Generated.Consts
 namespace Sqfs.Writer
@@ -206,6 +214,18 @@ def readerAccepts (f : Bytes) : Bool :=
 
 /-! ## Writer state and the two file primitives -/
 
+/-- The failure a run is subjected to (none by default).
+
+* `failAt = some k`: the run fails when `k` output calls have been issued — the output call that would be the
+  `k`-th (0-based) returns an error (ENOSPC, EIO, …; `pwrite`/`ftruncate` return -1 without changing the file), or a
+  failure of another kind (allocation, read error) is reported by the step that would issue it.
+* `limit = some n`: "disk full" — every call that would make the file longer than it is *and* longer than `n`
+  bytes fails; calls that stay within the bytes already there (such as the final superblock write) succeed. -/
+structure Fault where
+  failAt : Option Nat := none
+  limit : Option Nat := none
+deriving Repr, DecidableEq
+
 structure WState where
   ops : List Op := []
   /-- contents of the output file (ghost: always `image ops`, lemma `Good`) -/
@@ -214,22 +234,35 @@ structure WState where
   size : Nat := 0
   /-- sticky error, `-SQFS_ERROR_*` -/
   err : Option Nat := none
+  /-- the injected failure (constant during a run) -/
+  fault : Fault := {}
 deriving Repr, DecidableEq
+
+/-- does the output call that is about to be issued, and that would leave the file `newLen` bytes long if that is
+more than it has now, fail? -/
+def WState.faults (s : WState) (newLen : Nat) : Bool :=
+  s.fault.failAt == some s.ops.length ||
+  (match s.fault.limit with
+   | some l => decide (l < newLen ∧ s.file.length < newLen)
+   | none => false)
 
 def WState.fail (s : WState) (e : Nat) : WState :=
   if s.err.isSome then s else { s with err := some e }
 
-/-- `stdio_write_at`: no system call for an empty buffer, but `file->size` is still raised to `offset`. -/
+/-- `stdio_write_at`: no system call for an empty buffer, but `file->size` is still raised to `offset`.
+A failing `pwrite` (`ret < 0`, not EINTR): `return SQFS_ERROR_IO`, nothing else changes. -/
 def fWrite (s : WState) (off : Nat) (d : Bytes) : WState :=
   if s.err.isSome then s else
+  if d.length ≠ 0 ∧ s.faults (off + d.length) = true then { s with err := some errIo } else
   { s with
     ops := if d.length = 0 then s.ops else s.ops ++ [.pwrite off d]
     file := if d.length = 0 then s.file else filePwrite s.file off d
     size := if off + d.length ≥ s.size then off + d.length else s.size }
 
-/-- `stdio_truncate` -/
+/-- `stdio_truncate` (`sqfs_native_file_seek(…TRUNCATE)`: a failing `ftruncate` gives `SQFS_ERROR_IO`) -/
 def fTrunc (s : WState) (n : Nat) : WState :=
   if s.err.isSome then s else
+  if s.faults n = true then { s with err := some errIo } else
   { s with ops := s.ops ++ [.ftruncate n], file := fileTrunc s.file n, size := n }
 
 /-! ## Compressor options (`sqfs_generic_write_options`) -/
@@ -513,13 +546,19 @@ structure Run where
   /-- `!cfg->no_xattr` and what the xattr writer holds -/
   xattr : Option XattrIn
   devblksize : Nat
+  /-- the failure injected into the run's output calls (none: a fault-free run) -/
+  fault : Fault := {}
+  /-- `process_tarball` / `pack_files` / `fstree_post_process` report a failure after having made the
+  `write_data_block` calls in `blocks` (damaged or truncated tar stream, unreadable input file, failed
+  allocation): `main` does `goto out` -/
+  inputError : Option Nat := none
 
 /-- `sqfs_writer_init` as far as the output file is concerned -/
 def wInit (r : Run) : WState × Super :=
   match superInit r.blockSize r.mtime r.compId with
-  | .error e => ({ err := some e }, default)
+  | .error e => ({ err := some e, fault := r.fault }, default)
   | .ok sup =>
-    let s := fWrite {} 0 sup.encode                         -- sqfs_super_write (provisional)
+    let s := fWrite { fault := r.fault } 0 sup.encode       -- sqfs_super_write (provisional)
     let so := writeOptions s r.opts                          -- cmp->write_options
     (so.1, if so.2 then { sup with flags := sup.flags ||| flagCompressorOptions } else sup)
 
@@ -546,11 +585,18 @@ def tables (r : Run) (s : WState) (sup : Super) : WState × Super :=
   | none => x
   | some xa => xattrFlush r.cmp x.1 x.2 xa
 
+/-- `if (process_tarball(tar, &sqfs)) goto out;` (tar2sqfs), `if (pack_files(…)) goto out;` (gensquashfs),
+`if (fstree_post_process(&sqfs.fs)) goto out;`: a failure reported by the input side ends the run -/
+def inputCheck (r : Run) (s : WState) : WState :=
+  match r.inputError with
+  | none => s
+  | some e => s.fail e
+
 /-- everything up to, not including, the final `sqfs_super_write` of `sqfs_writer_finish` -/
 def preFinal (r : Run) : WState × Super :=
   let i := wInit r
   let d := writeDataBlocks i.1 {} r.blocks                  -- pack_files … sqfs_block_processor_finish
-  tables r d.1 { i.2 with inodeCount := r.inodeCount % 2 ^ 32 }
+  tables r (inputCheck r d.1) { i.2 with inodeCount := r.inodeCount % 2 ^ 32 }
 
 /-- the superblock `sqfs_writer_finish` writes last -/
 def finalSuper (r : Run) : Super :=
@@ -562,12 +608,21 @@ def padd (s : WState) (size blocksize : Nat) : WState :=
   if size % blocksize = 0 then s
   else fWrite s s.size (zeros (blocksize - size % blocksize))
 
+/-- the state after `sqfs_writer_finish` has attempted the final `sqfs_super_write` — reached with `err = none`
+only if every earlier step succeeded -/
+def commit (r : Run) : WState :=
+  fWrite (preFinal r).1 0 (finalSuper r).encode             -- sqfs_super_write (final)
+
 /-- `sqfs_writer_init` … `sqfs_writer_finish`: the complete run -/
 def run (r : Run) : WState :=
-  let p := preFinal r
-  let sup := finalSuper r
-  let s := fWrite p.1 0 sup.encode                          -- sqfs_super_write (final)
-  padd s sup.bytesUsed r.devblksize
+  padd (commit r) (finalSuper r).bytesUsed r.devblksize
+
+/-- `sqfs_writer_cleanup(&sqfs, status)`: after a failed run (`status != EXIT_SUCCESS`) the one further call on
+the output path is `unlink(sqfs->filename)`; the file is absent from then on -/
+def unlinkAtExit (r : Run) : Bool := (run r).err.isSome
+
+/-- the same payload subjected to the output fault `f` -/
+def Run.withFault (r : Run) (f : Fault) : Run := { r with fault := f }
 
 /-- number of output-file operations up to and including the final superblock write -/
 def kFinal (r : Run) : Nat := (preFinal r).1.ops.length + 1
@@ -608,5 +663,14 @@ def shapeCheck (ops : List Op) : Bool :=
 
 /-- position just after the second superblock write of a log of that shape -/
 def kFinalOf (ops : List Op) : Nat := (splitSafe ops.tail).1.length + 2
+
+/-- Shape of the log of a run that failed before it committed: nothing at all, or the provisional superblock
+followed only by operations that stay clear of the superblock region — no second write at offset 0 (checked on
+the logs of the real packers' *failing* runs). -/
+def failShapeCheck (ops : List Op) : Bool :=
+  match ops with
+  | [] => true
+  | .pwrite 0 p :: rest => isProvisional p && rest.all (fun o => decide o.Safe)
+  | _ => false
 
 end Sqfs.Writer
